@@ -6,7 +6,7 @@ use crate::verif_kani::vk::*;
 use crate::verif_kani::{check, cover};
 
 /// group order l = 2^252 + 27742317777372353535851937790883648493, little-endian
-const L: [u8; 32] = [
+pub const L: [u8; 32] = [
     0xed, 0xd3, 0xf5, 0x5c, 0x1a, 0x63, 0x12, 0x58, 0xd6, 0x9c, 0xf7, 0xa2, 0xde, 0xf9, 0xde, 0x14, 0, 0, 0, 0, 0, 0, 0, 0, 0, 0, 0, 0, 0, 0, 0, 0x10,
 ];
 
